@@ -5,7 +5,7 @@
 (* Events:                                                                 *)
 (*   reset {mock,len,ttl,gap,win,maxCount,maxVerify}  new VCLogic instance  *)
 (*   call  {a}      one SendSMSCode / VerifySMSCode call, reply inside a:   *)
-(*                  send:   a = [op, p, r, hash, sms]                       *)
+(*                  send:   a = [op, p, r, hash, sms, stable]               *)
 (*                  verify: a = [op, p, code, hash, r]                      *)
 (*   nonce {alpha,n,out,panic}  one direct GenNonceStr/SecGenNonceStr call  *)
 (*   cover {what, alpha}    end of a sample: every character of the        *)
